@@ -32,7 +32,9 @@ impl Ctx {
         self.tier == "thorough"
     }
     pub fn n(&self, quick: u64, thorough: u64) -> u64 {
-        (if self.thorough() { thorough } else { quick }) * self.boost
+        // VH_SCALE_PERCENT shrinks every budget (memory-checker runs are 20-50x slower)
+        let pct = container::env_u32("VH_SCALE_PERCENT", 100) as u64;
+        ((if self.thorough() { thorough } else { quick }) * self.boost * pct / 100).max(1)
     }
 }
 
@@ -566,7 +568,7 @@ fn main() {
             println!("{a} {b}");
         }
         p => {
-            util::start_watchdog(p.to_string(), ctx.tier.clone(), ctx.seed, ctx.out.clone(), if ctx.thorough() { 600 } else { 90 });
+            util::start_watchdog(p.to_string(), ctx.tier.clone(), ctx.seed, ctx.out.clone(), container::env_u32("VH_WATCHDOG_SECS", if ctx.thorough() { 600 } else { 90 }) as u64);
             run_property(&ctx, p)
         }
     }
